@@ -269,8 +269,9 @@ def rule_d5(repo):
             continue
         tvars = {x.id for x in ast.walk(it.ast.target) if isinstance(x, ast.Name)}
         for t in cfg.test_nodes():
-            if isinstance(t.ast, ast.Call) and call_attr(t.ast) == 'is_tconst' and isinstance(t.ast.func.value, ast.Name) and \
-                    t.ast.func.value.id in tvars and t.stmt is not None and it.ast.lineno <= t.lineno <= (it.ast.end_lineno or 0):
+            if isinstance(t.ast, ast.Call) and call_attr(t.ast) == 'is_tconst' and \
+                    ({x.id for x in ast.walk(t.ast.func.value) if isinstance(x, ast.Name)} & tvars) and \
+                    t.stmt is not None and it.ast.lineno <= t.lineno <= (it.ast.end_lineno or 0):
                 # a component that is not a constructor must not let the loop go on or the function return
                 after_false = cfg.reach_from([b for b, l in t.succ if l == 'false'])
                 if cfg.exit.id not in after_false and it.id not in after_false:
